@@ -60,9 +60,30 @@ def api_scenarios(R):
             for addr in (0, 0x1000, 0x2000, 0x3000, 0x5000, 0x7000, 0xffff880000001000, (1 << 64) - 4096):
                 lines.append("probe %d %d 4096" % (as_, addr))
         lines += (["bits file 0 40", "fset mem 3", "fclr file 0"] if q in paths else []) + ["read 1 4090 20", "attr file.format"]
+    # a successful call that resolves symbols through a fallback: OS type set on an ELF dump whose VMCOREINFO
+    # has init_uts_ns but no system_utsname (the failed first lookup must leave no stale message behind)
+    import struct
+    vmci = b"OSRELEASE=4.4.156-test\nPAGESIZE=4096\nSYMBOL(init_uts_ns)=ffffffff81e152e0\n"
+    note = struct.pack("<III", 11, len(vmci), 0) + b"VMCOREINFO\0\0" + vmci + b"\0" * (-len(vmci) % 4)
+    uts = b"\0" * 0x2e0 + struct.pack("<I", 6) + b"".join(x.ljust(65, b"\0") for x in
+          (b"Linux", b"demo-node", b"4.4.156-test", b"#1 SMP Wed Oct 10 06:29:13 UTC 2018", b"x86_64", b"(none)"))
+    p = R.path("c16-uts.elf")
+    dumpgen.write_elf(p, [dict(paddr=0x1e15000, filesz=4096, memsz=4096, voff=0xffffffff81e15000 - 0x1e15000, data=uts)], notes=note)
+    lines += ["open 1 %s" % p, "setstr addrxlat.ostype linux", "attr linux.uts.nodename", "attr linux.uts.release"]
     exe = R.build_harness("s_fmt", ["s_fmt.c"])
     rc, out, err = R.run_harness(exe, stdin_text="\n".join(lines) + "\n")
     obs = kdf.obs(out)
+    # a failure that crosses from libkdumpfile into libaddrxlat and back: KVADDR read through page tables whose
+    # root page is flagged zlib-compressed but does not inflate (every message of the chain exactly once)
+    if rc == 0:
+        mapping = {0x100 + i: i for i in range(4)}
+        root, tables = dumpgen.x86_64_pgt_pages(mapping, [8, 9, 10, 11])
+        q = R.path("c16-pgt.dump")
+        dumpgen.write_diskdump_custom(q, list(range(4)) + sorted(tables), tables, max_mapnr=16, methods={root: "zlib-bad"})
+        l2 = ["open 1 %s" % q, "pgt %d" % (root * 4096), "read 2 %d 4096" % (0x100 * 4096), "read 1 0 4096", "read 2 %d 64" % (0x101 * 4096 + 5)]
+        exe2 = R.build_harness("s_hist", ["s_hist.c"])
+        rc2, out2, err2 = R.run_harness(exe2, stdin_text="\n".join(l2) + "\n")
+        lines += l2; obs += kdf.obs(out2); rc = rc or rc2; err += err2
     fail = None
     for i, o in enumerate(obs):
         if " C16:" in o or "UNDOCUMENTED" in o:
